@@ -140,12 +140,25 @@ example : buckets [1, 3, 4, 6, 7] 2 = [[1, 3], [4, 6], [7]] ∧ bucketBounds 5 2
     fewerDivisions [10, 30, 40, 60, 70, 80] [0, 2, 4, 5] = some [10, 40, 70, 80] := by decide
 example : boundariesOK (bucketBounds 5 2) 5 = true ∧ strictMono (bucketBounds 5 2) = true := by decide
 
-/-- (finding) `FusedIO._divisions` does not look at the order of `_partitions`: for the reordered selection
-    `[5, 2, 3, 0]` it reports the unsorted `(d[5], d[3], d[1])` although `PartitionsFiltered.divisions` of the same
-    source reports unknown divisions. -/
-theorem C06_fusedio_counterexample :
+/-- **FusedIO, every selection** (full since D71): the guarded `_divisions` either reports unknown divisions — exactly
+    for reordered or repeated selections — or the truthful bucket bounds of `C06_fusedio`. -/
+theorem C06_fusedio_guarded (full : List Int) (n : Nat) (parts : Nat → List Row) (P : List Nat) (step : Nat)
+    (hinv : DivInv full n parts) (hne : P ≠ []) (hP : ∀ p ∈ P, p < n) (hstep : 1 ≤ step) :
+    (strictAsc P = false → fusedDivisionsGuarded full P step = some none) ∧
+    (strictAsc P = true → ∃ d, fusedDivisionsGuarded full P step = some (some d) ∧
+      DivInv d (buckets P step).length (fusedRows P step parts)) := by
+  constructor
+  · intro h; simp [fusedDivisionsGuarded, h]
+  · intro h
+    obtain ⟨d, hd, hinv'⟩ := C06_fusedio full n parts P step hinv h hne hP hstep
+    exact ⟨d, by simp [fusedDivisionsGuarded, h, hd], hinv'⟩
+
+/-- the witness of the former finding D71: the reordered selection `[5, 2, 3, 0]` now reports unknown divisions, like
+    `PartitionsFiltered.divisions` of the same source (the unguarded formula gave the unsorted `(125, 115, 105)`) -/
+example :
+    fusedDivisionsGuarded [100, 105, 110, 115, 120, 125, 130, 135, 140] [5, 2, 3, 0] 2 = some none ∧
     fusedDivisions [100, 105, 110, 115, 120, 125, 130, 135, 140] [5, 2, 3, 0] 2 = some [125, 115, 105] ∧
-    selDivisions [100, 105, 110, 115, 120, 125, 130, 135, 140] [5, 2, 3, 0] = .ok none := ⟨by decide, rfl⟩
+    selDivisions [100, 105, 110, 115, 120, 125, 130, 135, 140] [5, 2, 3, 0] = .ok none := ⟨by decide, by decide, rfl⟩
 
 /-! ### 5. Repartition (from C13) -/
 
@@ -243,21 +256,32 @@ theorem C06_len_rowcount_partition_only (n m : Nat) (p q : Nat → List Row)
 theorem C06_len_concat (n₁ n₂ : Nat) (p₁ p₂ : Nat → List Row) :
     totalLen (n₁ + n₂) (stackParts n₁ p₁ p₂) = totalLen n₁ p₁ + totalLen n₂ p₂ := totalLen_stack n₁ n₂ p₁ p₂
 
-/-- `Size._simplify_down`: `ncols * Len` for frames with more than one column, `Len` otherwise — equal to the
-    number of cells `ncols * rows` whenever there is at least one column (series: `ncols = 1`). -/
-theorem C06_size (isFrame : Bool) (ncols rows : Nat) (h : 1 ≤ ncols) (hs : isFrame = false → ncols = 1) :
+/-- `Size._simplify_down` (full since D75): `ncols * Len` for frames, `Len` for series — the number of cells
+    `ncols * rows`, also for a frame without columns. -/
+theorem C06_size (isFrame : Bool) (ncols rows : Nat) (hs : isFrame = false → ncols = 1) :
     (sizeRule isFrame ncols).1 * rows = ncols * rows := by
   unfold sizeRule
-  by_cases h1 : ncols > 1
-  · cases isFrame with
-    | true => simp [h1]
-    | false => have := hs rfl; omega
-  · have : ncols = 1 := by omega
-    subst this
-    cases isFrame <;> simp
+  cases isFrame with
+  | true =>
+    by_cases h1 : ncols = 1
+    · subst h1; simp
+    · simp [h1]
+  | false => have := hs rfl; subst this; simp
 
-/-- (finding) a frame WITHOUT columns: `df[[]].size` is answered by `Len` (6 for six rows), pandas says 0 -/
-theorem C06_size_counterexample : (sizeRule true 0).1 * 6 = 6 ∧ 0 * 6 = 0 := by decide
+example : (sizeRule true 0).1 * 6 = 0 ∧ (sizeRule true 3).1 * 6 = 18 ∧ (sizeRule false 1).1 * 6 = 6 := by decide
+
+/-- `Len` does not look through a node that computes a selection of its partitions (D108) -/
+theorem C06_len_selected_frame_kept (cls : String) (lp childlp : Bool) (deps : List Nat) (c0 : Bool) (ndim ncols : Nat)
+    (a : LenAction) (h : lenRule cls lp childlp deps c0 ndim ncols true true = a) :
+    a ≠ .childOfIndex ∧ ∀ i, a ≠ .dep i := by
+  subst h
+  unfold lenRule
+  constructor
+  · simp only [not_true_eq_false, and_false, if_false]
+    split <;> (try split) <;> (try split) <;> simp
+  · intro i
+    simp only [not_true_eq_false, and_false, if_false]
+    split <;> (try split) <;> (try split) <;> simp
 
 /-- **FromPandas._get_lengths** (full since D62): unfiltered — the partition sizes; filtered by ANY valid
     `_partitions` (any order, repeats) — the sizes of the selected partitions, in the order of the selection. -/
